@@ -133,3 +133,133 @@ Proof.
     + ring.
     + rewrite <- C1', <- C2', <- C3'. reflexivity.
 Qed.
+
+(** ** equivariance under a common rigid motion *)
+(** Moving both bodies by g leaves body 1 expressed in body 2's frame unchanged ... *)
+Lemma mulMV_transpose_is_mulTV (m : M3 R) (v : V3R) : mulMV (transpose m) v = mulTV m v.
+Proof. reflexivity. Qed.
+
+Lemma transform_compose (A B : Pose R) (v : V3R) :
+  transform_point (compose A B) v = transform_point A (transform_point B v).
+Proof.
+  unfold transform_point, compose. cbn [rot trans]. rewrite mulMV_mmul, mulMV_vadd, vadd_assoc. reflexivity.
+Qed.
+
+Lemma transform_invert_l (T : Pose R) (v : V3R) : is_rotation (rot T) ->
+  transform_point (invert_transform T) (transform_point T v) = v.
+Proof.
+  intros HR. unfold transform_point, invert_transform. cbn [rot trans].
+  rewrite mulMV_vadd, !mulMV_transpose_is_mulTV, HR.
+  destruct v as [x y z], (mulTV (rot T) (trans T)) as [a b c]. unfold vadd, vneg.
+  cbn [vx vy vz add opp ROps]. f_equal; ring.
+Qed.
+
+Theorem express_in_common_motion (g T1 T2 : Pose R) (v : V3R) : is_rotation (rot g) ->
+  transform_point (compose (invert_transform (compose g T2)) (compose g T1)) v =
+  transform_point (compose (invert_transform T2) T1) v.
+Proof.
+  intros Hg. rewrite !transform_compose.
+  set (w := transform_point T1 v).
+  (* invert (g T2) (g w) = invert T2 w, pointwise *)
+  unfold transform_point, invert_transform, compose. cbn [rot trans].
+  rewrite !mulMV_transpose_is_mulTV.
+  assert (HT : forall u, mulTV (mmul (rot g) (rot T2)) u = mulTV (rot T2) (mulTV (rot g) u)).
+  { intros u. destruct (rot g) as [[a1 a2 a3] [b1 b2 b3] [c1 c2 c3]], (rot T2) as [[d1 d2 d3] [e1 e2 e3] [f1 f2 f3]], u as [x y z].
+    unfold mulTV, mulMV, mmul, transpose, col, nthv, dot. cbn [vx vy vz r0 r1 r2 add mul ROps]. f_equal; ring. }
+  rewrite !HT.
+  assert (HL : forall a b : V3R, vadd (mulTV (rot T2) (mulTV (rot g) a)) (vneg (mulTV (rot T2) (mulTV (rot g) b)))
+                         = mulTV (rot T2) (mulTV (rot g) (vsub a b))).
+  { intros a b. destruct (rot g) as [[a1 a2 a3] [b1 b2 b3] [c1 c2 c3]], (rot T2) as [[d1 d2 d3] [e1 e2 e3] [f1 f2 f3]],
+      a as [x y z], b as [x' y' z'].
+    unfold mulTV, mulMV, transpose, col, nthv, dot, vadd, vneg, vsub. cbn [vx vy vz r0 r1 r2 add sub mul opp ROps]. f_equal; ring. }
+  rewrite HL.
+  replace (vsub (vadd (mulMV (rot g) w) (trans g)) (vadd (mulMV (rot g) (trans T2)) (trans g)))
+    with (mulMV (rot g) (vsub w (trans T2))).
+  2:{ rewrite mulMV_vsub. destruct (mulMV (rot g) w) as [w1 w2 w3], (mulMV (rot g) (trans T2)) as [u1 u2 u3], (trans g) as [g1 g2 g3].
+      unfold vsub, vadd. cbn [vx vy vz add sub ROps]. f_equal; ring. }
+  rewrite Hg.
+  destruct (rot T2) as [[d1 d2 d3] [e1 e2 e3] [f1 f2 f3]], w as [x y z], (trans T2) as [p q r].
+  unfold mulTV, mulMV, transpose, col, nthv, dot, vadd, vneg, vsub. cbn [vx vy vz r0 r1 r2 add sub mul opp ROps]. f_equal; ring.
+Qed.
+
+(** ... so the contact surface (computed in body 2's frame) is the same and only frame2world
+    changes from T2 to g T2: both wrenches are rotated by the rotation of g. *)
+Definition rot_wrench (m : M3 R) (w : V3R * V3R) : V3R * V3R := (mulMV m (fst w), mulMV m (snd w)).
+
+Theorem wrench_equivariance (forces coms : list V3R) (com1 com2 : V3R) (g T : Pose R) :
+  accumulate_wrenches forces coms com1 com2 (compose g T) =
+  (rot_wrench (rot g) (fst (accumulate_wrenches forces coms com1 com2 T)),
+   rot_wrench (rot g) (snd (accumulate_wrenches forces coms com1 com2 T))).
+Proof.
+  unfold accumulate_wrenches, rot_wrench, compose. cbn [rot fst snd]. rewrite !mulMV_mmul. reflexivity.
+Qed.
+
+(** ** swap symmetry *)
+Lemma torques_map_rigid (Q : M3 R) (s : V3R) : proper_rotation Q ->
+  forall (about : V3R) (coms forces : list V3R),
+    torques (vadd (mulMV Q about) s) (map (fun c => vadd (mulMV Q c) s) coms) (map (mulMV Q) forces)
+    = map (mulMV Q) (torques about coms forces).
+Proof.
+  intros HQ about. induction coms as [|c coms IH]; intros [|f forces]; cbn [torques map]; auto.
+  f_equal; [|apply IH].
+  rewrite <- (proper_rotation_cross Q HQ). f_equal.
+  rewrite mulMV_vsub. destruct (mulMV Q c) as [c1 c2 c3], (mulMV Q about) as [a1 a2 a3], s as [s1 s2 s3]. unfold vsub, vadd. cbn [vx vy vz add sub ROps]. f_equal; ring.
+Qed.
+
+Lemma map_vneg_mulMV (Q : M3 R) (l : list V3R) : map (fun f => vneg (mulMV Q f)) l = map (mulMV Q) (map vneg l).
+Proof. rewrite map_map. apply map_ext. intros f. rewrite mulMV_vneg. reflexivity. Qed.
+
+Lemma map_vneg_mulMV_vneg (Q : M3 R) (l : list V3R) : map vneg (map (mulMV Q) (map vneg l)) = map (mulMV Q) l.
+Proof. rewrite !map_map. apply map_ext. intros f. rewrite mulMV_vneg, vneg_vneg. reflexivity. Qed.
+
+(** The same physical contact seen from body 1's frame T' instead of body 2's frame T = T' o phi
+    (phi = (Q, s) a proper rigid motion), with the roles of the bodies exchanged: contact
+    centres are mapped by phi, forces are mapped by Q and negated (the force ON the other
+    body), the centres of mass exchange their roles.  Then the two wrenches are exchanged. *)
+Theorem wrench_swap (forces coms : list V3R) (com1 com2 : V3R) (R' Q : M3 R) (s p p' : V3R) :
+  proper_rotation Q ->
+  let phi := fun c => vadd (mulMV Q c) s in
+  accumulate_wrenches (map (fun f => vneg (mulMV Q f)) forces) (map phi coms) (phi com2) (phi com1) (P R' p') =
+  (snd (accumulate_wrenches forces coms com1 com2 (P (mmul R' Q) p)),
+   fst (accumulate_wrenches forces coms com1 com2 (P (mmul R' Q) p))).
+Proof.
+  intros HQ phi. unfold accumulate_wrenches. cbn [rot fst snd].
+  rewrite !map_vneg_mulMV.
+  unfold phi. rewrite !(torques_map_rigid Q s HQ).
+  rewrite map_vneg_mulMV_vneg, (torques_map_rigid Q s HQ).
+  rewrite !vsum_map_mulMV, !mulMV_mmul.
+  rewrite !torques_vneg, !vsum_map_vneg, !mulMV_vneg, !vneg_vneg.
+  reflexivity.
+Qed.
+
+(** ** express_in *)
+Section Express.
+  Variable A : Type.
+
+  (** re-expressing a body in the frame it is already in leaves every vertex where it is *)
+  Theorem express_in_idempotent (b : body (F:=R) A) (T : Pose R) : is_rotation (rot T) ->
+    vertices (express_in A (express_in A b T) T) = vertices (express_in A b T) /\
+    body2origin (express_in A (express_in A b T) T) = T.
+  Proof.
+    intros HT. unfold express_in. cbn [vertices body2origin]. split; [|reflexivity].
+    unfold transform_points. rewrite map_map. apply map_ext. intros v.
+    rewrite transform_compose. apply transform_invert_l. exact HT.
+  Qed.
+
+  (** the new vertices are the old ones moved by inverse(new) o old *)
+  Theorem express_in_vertices (b : body (F:=R) A) (T : Pose R) (v : V3R) : is_rotation (rot T) ->
+    In v (vertices b) ->
+    In (transform_point (invert_transform T) (transform_point (body2origin b) v)) (vertices (express_in A b T)).
+  Proof.
+    intros HT Hv. unfold express_in, transform_points. cbn [vertices].
+    rewrite <- transform_compose. apply in_map. exact Hv.
+  Qed.
+
+  (** every cached property is recomputed from the new vertices after express_in *)
+  Theorem express_in_invalidates (fcom : list (V3R * V3R * V3R * V3R) -> V3R)
+          (faabbs : list (V3R * V3R * V3R * V3R) -> A) (b : body (F:=R) A) (T : Pose R) :
+    let b' := express_in A b T in
+    let pts := map (tet_points (vertices b')) (tetrahedra b') in
+    fst (get_points A b') = pts /\ fst (get_com A fcom b') = fcom pts /\ fst (get_aabbs A faabbs b') = faabbs pts.
+  Proof. cbv zeta. unfold express_in, get_points, get_com, get_aabbs. cbn. repeat split. Qed.
+End Express.
